@@ -73,6 +73,15 @@ def _import_time_objects():
     det.patched().  det itself replaces bare class-level locks and the `_global` / `_local` singletons; anything else of
     that sort (e.g. a Trampoline stored as a class attribute) would make controlled threads block for real, or make a timed
     wait sleep in real time while the fake clock stands still -- a hang, not a verdict."""
+    global _ito_cache
+    nmods = sum(1 for n in sys.modules if n.startswith("reactivex.scheduler"))
+    if _ito_cache is not None and _ito_cache[0] == nmods:  # import-time state is static: rescan only the known places
+        cur = []
+        for o, n in _ito_cache[1]:
+            v = o.get(n) if isinstance(o, dict) else vars(o).get(n)
+            if v is not None and det.audit_object(v):
+                cur.append((o, n, v))
+        return cur
     out = []
 
     def candidate(v):
@@ -94,7 +103,11 @@ def _import_time_objects():
         if (id(o), n) not in seen:
             seen.add((id(o), n))
             uniq.append((o, n, v))
+    _ito_cache = (nmods, [(o, n) for o, n, _ in uniq])
     return uniq
+
+
+_ito_cache = None
 
 
 class patched:
